@@ -155,11 +155,21 @@ def run(ctx):
         for m in (METHODS if n_ <= 300 or ctx.thorough() else [ctx.rng.choice(METHODS), "benjamini-hochberg"]):
             r = guarded(npc.adjust_p, pf_.copy(), m)
             want = float_oracle(pf_, m)
+            if r[0] == "ok" and np.shape(r[1]) == (n_,) and np.any(np.array(r[1], dtype=float) < pf_):
+                ctx.violation("oracle", {"method": m, "n": n_, "issue": "an adjusted p-value is below the raw one", "index": int(np.argmax(np.array(r[1], dtype=float) < pf_))}, site="adjust_p"); break
             if r[0] != "ok" or np.shape(r[1]) != (n_,) or not np.allclose(np.array(r[1], dtype=float), want, rtol=1e-12, atol=0):
                 ctx.violation("oracle", {"method": m, "n": n_, "pvalues": pf_[:8].tolist(), "issue": f"adjust_p fails or deviates from the definition for vectors of length {n_}",
                                          "returned": str(r[1:])[:200], "expected_head": want[:8].tolist()}, site="adjust_p"); break
         ctx.count("every-length-1..N")
     ctx.case(("every-length", NLEN), True)
+    # p-values at the very bottom of the double range (subnormal): p <= adjusted still holds exactly, nothing collapses to 0
+    for vec_ in ([5e-324, 5e-324], [5e-324, 1e-323, 5e-324], [1e-320, 3e-322, 5e-324, 1.0], [5e-324], [2.5e-323, 5e-324, 0.5, 5e-324], [1e-310, 1e-315, 1e-320]):
+        for m in METHODS:
+            pf_ = np.array(vec_); r = guarded(npc.adjust_p, pf_.copy(), m); want = float_oracle(pf_, m)
+            ctx.case(("subnormal", tuple(vec_), m), True); ctx.count("subnormal-p-values")
+            if r[0] != "ok" or np.any(np.array(r[1], dtype=float) < pf_) or np.any(np.abs(np.array(r[1], dtype=float) - want) > 4 * 5e-324 + 1e-12 * want):
+                ctx.violation("oracle", {"method": m, "pvalues": vec_, "issue": "subnormal p-values: adjusted value below the raw one or off the definition", "returned": str(r[1:])[:160],
+                                         "expected": want.tolist()}, site="adjust_p")
     # vectors the caller cannot (and the function need not) write to: read-only arrays, views of immutable buffers, broadcast rows
     for _ in range(ctx.n(30, 300)):
         n_ = ctx.rng.randint(1, 9); m = ctx.rng.choice(METHODS)
